@@ -244,11 +244,17 @@ func (ex *Exec) scanMods(fr *frame, l *Loop, st *State) *loopMods {
 						m.all = true
 						continue
 					}
-					c := ex.P.ContractFor(callee)
+					c, atSite := ex.P.ContractForAt(callee, fn)
 					switch {
 					case c != nil && (c.Pure || c.Opaque):
 					case c != nil && !c.Inline:
 						pn, pt := sigNames(callee, c)
+						if atSite {
+							for _, cp := range fn.Params {
+								pn = append(pn, "caller."+cp.Name())
+								pt = append(pt, cp.Type())
+							}
+						}
 						if !ex.addModRegionsSig(c, m, pn, pt) {
 							m.all = true
 						}
